@@ -128,6 +128,7 @@ pub struct RxOut {
     pub outcomes: Vec<u64>,
     pub multibyte_allowed: u64,
     pub partial_char_allowed: u64,
+    pub forced_states: u64,
 }
 
 fn viol(job: &RxJob, vocab: &VocabSpec, check: &str, class: &str, hist: &[u32], what: serde_json::Value) -> Violation {
@@ -151,7 +152,7 @@ fn viol(job: &RxJob, vocab: &VocabSpec, check: &str, class: &str, hist: &[u32], 
 
 /// product search (engine, DFA state); generic over how the reference DFA was obtained
 pub fn product_check(job: &RxJob, dfa: &Dfa, f: &Factory, vocab: &VocabSpec, max_states: usize) -> RxOut {
-    let mut out = RxOut { states: 0, transitions: 0, closure: false, violation: None, refused: None, outcomes: vec![], multibyte_allowed: 0, partial_char_allowed: 0 };
+    let mut out = RxOut { states: 0, transitions: 0, closure: false, violation: None, refused: None, outcomes: vec![], multibyte_allowed: 0, partial_char_allowed: 0, forced_states: 0 };
     let root = match f.try_matcher(&job.g) {
         Ok(m) => m,
         Err(e) => {
@@ -173,6 +174,7 @@ pub fn product_check(job: &RxJob, dfa: &Dfa, f: &Factory, vocab: &VocabSpec, max
     queue.push_back(N { m: root, q: dfa.start, hist: vec![] });
     let mut capped = false;
     while let Some(mut n) = queue.pop_front() {
+        crate::watchdog::beat();
         out.states += 1;
         let q = n.q;
         if n.m.is_error() {
@@ -203,6 +205,35 @@ pub fn product_check(job: &RxJob, dfa: &Dfa, f: &Factory, vocab: &VocabSpec, max
             }
         };
         out.outcomes.push(mask.as_ref().map(|m| mask_hash(m)).unwrap_or(7) ^ acc as u64);
+        if vocab.canonical {
+            // canonical tokenizer: while text is forced the mask may narrow to the one forced token;
+            // forcing is legitimate only where the reference allows exactly one next byte and no stop
+            let ff = n.m.clone().compute_ff_tokens();
+            if let (Some(&t), Some(mk)) = (ff.first(), mask.as_ref()) {
+                let live_next: Vec<u8> = (0..=255u8).filter(|b| dfa.is_live(dfa.run(q, &[*b]))).collect();
+                let bytes = trie.token(t);
+                let q2 = dfa.run(q, bytes);
+                let ml = mask_to_vec(mk);
+                if live_next.len() != 1 || dfa.is_final(q) || !dfa.is_live(q2) || ml != vec![t] {
+                    out.violation = Some(viol(job, vocab, "forcing_not_legitimate", "regex-forces-one-of-several-continuations", &n.hist,
+                        json!({"ff_tokens": ff, "mask": ml, "reference_next_bytes": live_next.iter().map(|b| show(&[*b])).collect::<Vec<_>>(), "reference_matches_here": dfa.is_final(q)})));
+                    return out;
+                }
+                out.forced_states += 1;
+                let mut c = n.m.clone();
+                out.transitions += 1;
+                if let Err(e) = c.consume_token(t) {
+                    out.violation = Some(viol(job, vocab, "commit_failed", "regex-engine-error", &n.hist, json!({"token": t, "err": e.to_string()})));
+                    return out;
+                }
+                if seen.insert((state_key(&c), q2)) {
+                    let mut h = n.hist.clone();
+                    h.push(t);
+                    queue.push_back(N { m: c, q: q2, hist: h });
+                }
+                continue;
+            }
+        }
         for t in 0..nv {
             if t == eos {
                 continue;
@@ -416,11 +447,31 @@ pub fn run(ctx: &Ctx) -> Coverage {
         return Coverage::StateGraph { rule: "utf8 self-test failed".into() };
     }
     let vocab = c04_vocab();
+    let vocab_canon = {
+        let mut v = c04_vocab();
+        v.canonical = true;
+        v.name = "RX(45)+canon".into();
+        v
+    };
     let max_size = ctx.tier.pick(3, 4);
     let mut all: Vec<R> = vec![];
     let mut memo = vec![];
     for s in 1..=max_size {
         all.extend(rexprs(s, true, &mut memo));
+    }
+    if ctx.quick() {
+        // size 4 over the two atoms a, b only (all operators)
+        let mut memo4 = vec![];
+        fn ab_only(r: &R) -> bool {
+            match r {
+                R::Char('a') | R::Char('b') => true,
+                R::Char(_) | R::Class(..) | R::Dot => false,
+                R::Cat(a, b) | R::Alt(a, b) | R::And(a, b) => ab_only(a) && ab_only(b),
+                R::Star(a) | R::Plus(a) | R::Opt(a) | R::Rep(a, _, _) | R::Not(a) | R::NoCase(a) => ab_only(a),
+                _ => false,
+            }
+        }
+        all.extend(rexprs(4, true, &mut memo4).into_iter().filter(ab_only));
     }
     if !ctx.quick() {
         // size 5 without boolean operators
@@ -480,6 +531,22 @@ pub fn run(ctx: &Ctx) -> Coverage {
                 }
             }
         }
+        // the same product under a canonical tokenizer (forcing active): every job in the quick tier,
+        // the thorough tier's larger families only for regexes of size <= 4
+        if job.r.size() <= 4 {
+            let fc = Factory::new(&vocab_canon, &Slices::None).unwrap();
+            let oc = product_check(job, &dfa, &fc, &vocab_canon, max_states);
+            if oc.refused.is_none() {
+                ctx.count("canonical_products", 1);
+                ctx.count("canonical_forced_states", oc.forced_states);
+                ctx.states.fetch_add(oc.states, Ordering::Relaxed);
+                ctx.transitions.fetch_add(oc.transitions, Ordering::Relaxed);
+                ctx.validated.fetch_add(oc.transitions, Ordering::Relaxed);
+                if let Some(v) = oc.violation {
+                    ctx.violation(v);
+                }
+            }
+        }
         let out = product_check(job, &dfa, &f, &vocab, max_states);
         ctx.count("jobs_run", 1);
         if let Some(e) = out.refused {
@@ -515,6 +582,6 @@ pub fn run(ctx: &Ctx) -> Coverage {
     }
     let _ = BTreeMap::<u8, u8>::new();
     Coverage::StateGraph {
-        rule: format!("every regex AST with <= {max_size} nodes over atoms a, b, [ab], [^a], ., é, €, 😀 and ops concat | * + ? {{m,n}} (?i) & ~ (size 5 over a reduced atom set in the thorough tier), through from_regex, Lark /regex/ terminals and structural Lark terminals; for each: BFS over the product (real engine state, reference DFA state) over a 46-token vocabulary (single bytes, whole and partial UTF-8 characters, multi-character tokens), all tokens compared in every product state; a closed product is a complete language-equality result over that alphabet; reference DFA cross-checked against regex-automata for every regex that has a text form"),
+        rule: format!("every regex AST with <= {max_size} nodes over atoms a, b, [ab], [^a], ., é, €, 😀 and ops concat | * + ? {{m,n}} (?i) & ~ (quick: plus size 4 over atoms a, b; thorough: size 5 over a reduced atom set), through from_regex, Lark /regex/ terminals and structural Lark terminals; for each: BFS over the product (real engine state, reference DFA state) over a 46-token vocabulary (single bytes, whole and partial UTF-8 characters, multi-character tokens), all tokens compared in every product state; the same product again under a canonical tokenizer, where a state with forced tokens must have exactly one viable next byte in the reference and no match; a closed product is a complete language-equality result over that alphabet; reference DFA cross-checked against regex-automata for every regex that has a text form"),
     }
 }
